@@ -56,7 +56,8 @@ def _get_features_info(features: list[Feature]) -> dict[str, Any]:
         elif feature.is_cardinality_group():
             feature_type = "GENOR"
 
-        features_info[feature.name] = {
+        feature_id = safename(feature.name)  # the same id as in the tree and in the constraints
+        features_info[feature_id] = {
             "name": feature.name,
             "optional": not feature.is_mandatory(),
             "type": feature_type,
@@ -65,8 +66,8 @@ def _get_features_info(features: list[Feature]) -> dict[str, Any]:
 
         if feature_type == "GENOR":
             relation = next(r for r in feature.get_relations() if r.is_cardinal())
-            features_info[feature.name]["min"] = relation.card_min
-            features_info[feature.name]["max"] = relation.card_max
+            features_info[feature_id]["min"] = relation.card_min
+            features_info[feature_id]["max"] = relation.card_max
     return features_info
 
 
